@@ -15,6 +15,7 @@
 import GormModel.Model.Callbacks
 import GormModel.Gen.CallbackBuilderFacts
 namespace Gorm
+namespace CbB
 
 /-- where a field of the builder returned by a method comes from -/
 inductive Src where
@@ -211,6 +212,15 @@ def Chain.builder (T : BuilderFacts) (ch : Chain) : Bld :=
 def Chain.record (T : BuilderFacts) (ch : Chain) : Bld :=
   ch.fin.run T (ch.builder T)
 
+/-- the RECEIVER after a chain method whose result is thrown away (`b := p.Before(x); b.After(y); b.Register(…)`) -/
+def Step.runRecv (T : BuilderFacts) (b : Bld) : Step → Bld
+  | .before x => T.cbBeforeRecv.apply { s := x } b
+  | .after x => T.cbAfterRecv.apply { s := x } b
+
+/-- the record registered when every chain method is called on the starter's value and its result dropped -/
+def Chain.recordDropped (T : BuilderFacts) (ch : Chain) : Bld :=
+  ch.fin.run T (ch.steps.foldl (Step.runRecv T) (ch.start.run T))
+
 /-- the record as the sorter sees it (`match` evaluated: nil = true; a nil handler has identity 0) -/
 def Bld.toCb (b : Bld) : Cb :=
   { name := b.name, before := b.before, after := b.after, remove := b.remove, replace := b.replace,
@@ -238,6 +248,9 @@ def Chain.request (ch : Chain) : Bld :=
   | .register n h => { b with name := n, handler := some h }
   | .replace n h => { b with name := n, handler := some h, replace := true }
   | .remove n => { b with name := n, remove := true }
+
+end CbB
+open CbB
 
 /-! ## running chains on a processor -/
 
